@@ -23,7 +23,7 @@ from . import _rt
 
 ID = "C03"
 LEVEL = "exploration"
-ENGINE = "hypothesis"
+ENGINE = "hypothesis (+ atheris/libFuzzer coverage guidance in the thorough tier)"
 TECHNIQUE = "grammar-based fuzzing of command lines, environments, config texts/paths/objects with an outcome-validity oracle (exception type / exit status / stderr), bucketed by root-cause frame"
 LEVEL_TEXT = ("Tens of thousands of generated command lines (and env mappings, config strings, paths, objects) per run against six parser "
               "shapes in both exit_on_error modes; any outcome other than a result, ArgumentError / exit 2 with usage+error, or exit 0 for "
@@ -498,14 +498,22 @@ def body(ctx):
 def plan(tier):
     if tier == "quick":
         return [{"n": 3000} for _ in range(16)]
-    return [{"n": 60000} for _ in range(16)]
+    # thorough: 12 shards of plain generated search + 4 shards in which libFuzzer's coverage feedback (atheris, package instrumented at
+    # import) steers the same structured generator through Hypothesis' fuzz_one_input, each from an empty corpus with its own seed
+    return [{"n": 60000} for _ in range(12)] + [{"kind": "atheris", "n": 40000} for _ in range(4)]
 
 
 def run_shard(spec, ctx):
     import warnings
 
     warnings.simplefilter("ignore")
-    run_given(ctx, case_strategy(), body(ctx), spec["n"])
+    if spec.get("kind") == "atheris":
+        from ..core import run_atheris
+
+        ctx.cls("engine:atheris")
+        run_atheris(ctx, case_strategy(), body(ctx), spec["n"])
+    else:
+        run_given(ctx, case_strategy(), body(ctx), spec["n"])
 
 
 def health(tier, evaluations, nontrivial, classes):
